@@ -82,6 +82,10 @@ for n, what in (("pure_parse", "parse(x); parse(y); parse(x): bytes and view ide
     add(n, ["C17"], tier="quick", timeout=1800, est=400, mem_gb=32, fs=300, path="registry::h_c17::proofs::",
         funcs=["DNSSector::parse", "Compress::uncompress", "Compress::compress", "Renamer::rename_with_raw_names", "synth::gen::RR::from_string"],
         bound=what + "; all payload symbolic", assume=["library errors are failed checks (every call must succeed)"])
+add("pure_build_case", ["C17"], tier="quick", timeout=900, est=60, mem_gb=24, fs=300, path="registry::h_c17::proofs::",
+    funcs=["synth::gen::RR::new", "synth::gen::copy_raw_name_from_str", "synth::gen::A::build", "synth::gen::NS::build"],
+    bound="A::build(x); A::build(x'); A::build(x); NS::build(x); NS::build(x') where x' differs from x only in the ASCII case of name letters; all TTLs and addresses: each result is the wire form of its own arguments and the x results are identical",
+    assume=["library errors are failed checks (every call must succeed)"])
 OUTSIDE["C17"] = "concurrent schedules (Kani executes sequentially: the 'concurrently on other threads' half is not claimed); sequences longer than x,y,x; inputs outside the listed skeleton pairs; ParsedPacket::empty() (its rand-based id is the permitted randomness)"
 
 # ---------------------------------------------------------------- C13
@@ -91,6 +95,10 @@ _f13p = ["synth::gen::RR::from_string", "synth::parser::rr_parser", "synth::pars
 for w in ("a", "aaaa", "ns", "cname", "ptr", "mx", "soa", "ds", "txt"):
     add("synth_build_" + w, ["C13"], tier="quick", timeout=600, est=30, path="registry::h_c13::proofs::", funcs=_f13,
         bound="%s::build with every value of its numeric fields (TTL, address, preference, counters, key tag, digest bytes) and concrete names: result == RFC 1035 wire form" % w.upper())
+for n, what in (("64_owner", "owner name whose first label has 64 letters: error, never a record"), ("64_ns", "NS target whose first label has 64 letters: error, never a record"),
+                ("62_owner", "owner name whose first label has 62 letters: accepted, wire form == RFC 1035")):
+    add("synth_label_" + n, ["C13"], tier="quick", timeout=600, est=40, fs=400, path="registry::h_c13::proofs::", funcs=_f13,
+        bound="builder with a concrete boundary-length label (%s); every TTL and address" % what)
 for n, what in (("bad_ds_odd", "DS digest with an odd number of hex digits"), ("bad_ds_nonhex", "non-hex DS digest"), ("bad_octet256", "IPv4 octet 256"), ("bad_ttl_2e32", "TTL 4294967296"),
                 ("bad_pref_2e16", "MX preference 65536"), ("bad_txt_unbalanced", "unbalanced TXT quote"), ("bad_txt_escape300", "TXT escape \\\\300"), ("bad_surplus_field", "surplus trailing field"),
                 ("bad_missing_field", "missing MX exchange"), ("bad_class_ch", "class CH"), ("bad_aaaa", "IPv4 text for AAAA"),
